@@ -834,7 +834,7 @@ def run(ctx: Context):
     # -- 10. every validated segment is delivered exactly once, in order ----------------
     with ctx.rule("C10.10", "R1/R4/E7", "segment sequencing: the segment loop waits for the decode -> decrypt -> _set_segment chain, "
                   "_set_segment writes the segment (unless verifying) and advances _current_segment by exactly one, nobody "
-                  "else moves _current_segment, _process_segment is run for _current_segment", expected=6) as r:
+                  "else moves _current_segment, _process_segment is run for _current_segment, _done only past the last segment", expected=7) as r:
         CUR = "self._current_segment"
         ss = idx.func(RET + "._set_segment")
         scfg = ss.cfg()
@@ -925,6 +925,64 @@ def run(ctx: Context):
                           short(f), src(f, c.args[0]) if is_call and c.args else "?"))
         if not np_:
             raise AnchorVanished("no call of Retrieve._process_segment")
+
+        # success is reported only when every requested segment was delivered
+        LAST = "self._last_segment"
+        dcs = idx.func(RET + "._download_current_segment")
+        dl_fn = idx.func(RET + ".download")
+        dn_seen = 0
+        for (f, c, is_call) in _uses_everywhere(idx, "_done", "allmydata.mutable.retrieve"):
+            if f.cls is None or f.cls.name != "Retrieve":
+                continue
+            dn_seen += 1
+            if not is_call or f.qual not in (dcs.qual, dl_fn.qual):
+                r.violation(f, f.loc(c), "%s %s Retrieve._done, which reports the read as complete" % (
+                    short(f), "calls" if is_call else "takes as a value"))
+        if not dn_seen:
+            raise AnchorVanished("no use of Retrieve._done")
+        dcfg = dcs.cfg()
+        dnorm = FlowNorm(dcs)
+        nxt_seg = norm_src(LAST + " + 1")
+        past0 = norm_src("%s - %s" % (CUR, LAST))
+        past1 = norm_src("%s - %s - 1" % (CUR, LAST))
+
+        def all_delivered(m, lab):
+            op, l, rr = _fact(dnorm, m, lab)
+            if op == "truth" and l == "self._verify":
+                return True
+            if (op == "<" and (l, rr) == (LAST, CUR)) or (op in ("<=", "==") and (l, rr) == (nxt_seg, CUR)) or \
+                    (op == "==" and (l, rr) == (CUR, nxt_seg)):
+                return True
+            # forms with arithmetic are normalised to  0 <op> difference
+            return l == "0" and ((op == "<" and rr == past0) or (op in ("<=", "==") and rr == past1))
+        dn_nodes = dcfg.find(has_call_named("self._done"))
+        if not dn_nodes:
+            raise AnchorVanished("self._done() in _download_current_segment")
+        r.site(dcs, dn_nodes[0].ast, "done when past the last segment")
+        for (t, w) in find_path_avoiding(dcfg, has_call_named("self._done"), gate_edge=all_delivered,
+                                         kill=stores_any({CUR, LAST})):
+            r.violation(dcs, dcs.loc(t.ast), "_download_current_segment reports the read as complete although _current_segment "
+                        "may not be past _last_segment: the consumer would be missing the rest of the requested range "
+                        "(path: %s)" % w.brief(), w)
+        zcfg = dl_fn.cfg()
+        znorm = FlowNorm(dl_fn)
+
+        zps = first_positional_params(dl_fn)
+        if len(zps) < 3:
+            raise AnchorVanished("download(consumer, offset, size) signature")
+        zsize = zps[2]
+
+        def zero_size(m, lab):
+            op, l, rr = _fact(znorm, m, lab)
+            return (op == "==" and {l, rr} == {"0", zsize}) or (op == "false" and l == zsize)
+        for (t, w) in find_path_avoiding(zcfg, has_call_named("self._done"), gate_edge=zero_size):
+            r.violation(dl_fn, dl_fn.loc(t.ast), "download() reports the read as complete without downloading although the "
+                        "requested size may be non-zero (path: %s)" % w.brief(), w)
+        # ... and _done is the only place that fires the result
+        for (f, c, is_call) in _uses_everywhere(idx, "callback", "allmydata.mutable.retrieve"):
+            recv = c.func.value if is_call else c.value
+            if attr_path(recv) == "self._done_deferred" and f.qual != "allmydata." + RET + "._done":
+                r.violation(f, f.loc(c), "%s fires Retrieve._done_deferred with a success result" % short(f))
 
         # _maybe_decode_and_decrypt_segment hands the chain back, so that loop() continues only after _set_segment ran
         md = idx.func(RET + "._maybe_decode_and_decrypt_segment")
